@@ -11,6 +11,7 @@
 //@include inc/storage_body.rs
 //@include inc/txid_types.rs
 //@include inc/world_core.rs
+//@include inc/world_mid_standin.rs
 //@include inc/blen.rs
 //@include inc/world_lookup_standin.rs
 //@include inc/handler_body.rs
